@@ -197,10 +197,13 @@ class Exec:
                 return False
         k = len(self.decisions)
         if k < len(self.prefix):
+            # replay: entries are True/False for real decisions and "T"/"F" for conditions that had only one feasible side
+            # (they are recorded too, so that the positions of a re-run line up with the run that produced the prefix)
             choice = self.prefix[k]
             self.decisions.append(choice)
-            self.pc.append(cond if choice else z3.Not(cond))
-            return choice
+            val = choice in (True, "T")
+            self.pc.append(cond if val else z3.Not(cond))
+            return val
         # new decision: which sides are feasible?
         s = self.I.solver
         s.push()
@@ -221,9 +224,11 @@ class Exec:
             self.pc.append(cond)
             return True
         if t_ok:
+            self.decisions.append("T")
             self.pc.append(cond)   # implied; keep for readability of the path condition
             return True
         if f_ok:
+            self.decisions.append("F")
             self.pc.append(z3.Not(cond))
             return False
         raise Infeasible()
@@ -356,6 +361,8 @@ class Interp:
             if p.get("self"):
                 env["self"] = a
             else:
+                if isinstance(a, Obj) and "XmlItem" in (p.get("ty") or ""):
+                    a = self.coerce_into(a, p["ty"])       # `f(Rc::new(x.into()))` with a parameter of the enum type
                 self.bind(p["pat"], a, env)
         env["__file__"] = file
         env["__fn__"] = fn["name"]
@@ -711,13 +718,17 @@ class Interp:
         if callable(c):
             return c(*args)
         env = dict(c.env)
+        env["__locals__"] = set()
         for p, a in zip(c.params, args):
             self.bind(p, a, env)
+        own = set(env.get("__locals__", ()))        # the closure's own parameters: they shadow, they are not captured
         try:
             return self.ev(c.body, env)
         finally:
             # closures capturing by reference: propagate assignments to captured variables
             for k2 in c.env:
+                if k2 in own or k2 == "__locals__":
+                    continue
                 if k2 in env and env[k2] is not c.env[k2]:
                     c.env[k2] = env[k2]
 
